@@ -72,10 +72,11 @@ def one_datum(ctx, r, must, b, txn):
     ws = [w for w in ctx.world.field_writes if w.body.path == b.path and w.field == ("F", txn, size_f[0])]
     okc = False
     for w in ws:
-        lv = sl.leaves_of_operand(w.rv["op"]) if w.rv["k"] == "use" else set()
+        lv = sl.leaves_of_rv(w.rv, w.bb)
         for l in lv:
             if l[0] == "binop" and l[1].startswith("Add"):
-                for (lhs, op, a, bo) in binops_in(b, l[2]):
+                ops_here = [(None, w.rv["op"], w.rv["a"], w.rv["b"])] if w.rv["k"] == "binop" else binops_in(b, l[2])
+                for (lhs, op, a, bo) in ops_here:
                     if not op.startswith("Add"):
                         continue
                     la, lb = sl.leaves_of_operand(a), sl.leaves_of_operand(bo)
@@ -127,7 +128,16 @@ def one_hash(ctx, r, txn):
     hash_ty = ctx.anchors.get("HASH")
     from .c06 import rooted_in_txn_field, leaf_root_adt
     done = set()
-    for chain in ctx.sem_chains("BLOB_PUBLISH"):
+    chains = ctx.sem_chains("BLOB_PUBLISH")
+    if not chains:
+        others = [e for e in ctx.fx.effects if e.kind not in ("FS_RENAME", "FS_UNLINK", "FS_OPEN", "FS_STAT", "FS_READ",
+                                                               "FS_READ_AT", "FS_CLOSE", "FS_MKDIR")
+                  and "CAS_BLOB" in (e.classes | (e.classes2 or frozenset()))]
+        r.bad("publish-site", others[0].site.body if others else None,
+              "no rename of a staging file onto a CAS path: the file at path(hash) is not put there by an atomic "
+              "replace%s - whatever already sits at that path stays, whether or not it has that hash" % (
+                  " (found instead: %s at %s)" % (others[0].kind, site_where(others[0].site)) if others else ""))
+    for chain in chains:
         # the frame that both registers the intent and (directly or through callees) publishes
         pub = ctx.deepest_frame(chain, lambda body: any(
             "INTENT_ADD" in sem_set(ctx.may.site_events(s)) and prog.local_target(s) is not None for s in body.calls()))
